@@ -11,4 +11,26 @@ CHECKS = {
         "technique": "Coq proof over source-regenerated model + differential execution",
     },
 }
+CHECKS["C17"] = {
+    "text": "Machine-checked refinement (Coq): the Gallina translation of every function of internal/dll.c, regenerated from the "
+            "source on every run, implements sequences: splice/make_first/make_last/remove/init specifications over rings of any "
+            "length, frame conditions, forward/backward traversal = the sequence / its reverse, and by induction every operation "
+            "sequence on any number of disjoint lists (C17_refines, C17_sequences).  The translation is validated against the "
+            "compiled dll.c (ASan/UBSan) on exhaustive short and random long operation sequences each run.",
+    "design_ref": "DESIGN.md section 4, C17",
+    "note": "Trusted: Coq kernel, translator (cross-checked differentially), gcc. Heap modelled as a total map address -> cell; "
+            "preconditions of the C API (elements of different lists, e not in list) are hypotheses (disjoint, lrep).",
+    "technique": "Coq refinement proof over source-regenerated model + differential execution",
+}
+CHECKS["C16"] = {
+    "text": "(b) Machine-checked theorem (Coq) over the regenerated translation of emit_init/emit_c: for every int n (also <= 0), "
+            "every start address and every character sequence, writes stay in [start,start+n), the contents are exactly the text "
+            "and NUL if it fits, else the first n-4 characters + '...' + NUL (C16_buffer); validated byte-for-byte against the real "
+            "debug functions for n in 0..80 and more, with canaries.  (a) the four debug functions run as participants of "
+            "deterministic-scheduler executions with a write monitor asserting that they change nothing but the queue spinlock bit.",
+    "design_ref": "DESIGN.md section 4, C16",
+    "note": "Trusted: Coq kernel, translator, the syntactic check that emit_c is the only store through the buffer pointer; part (a) "
+            "is exploration of sampled schedules plus the regenerated site inventory, not a theorem (listed under coverage.partial).",
+    "technique": "Coq proof over source-regenerated model (buffer) + differential execution + schedule exploration (transparency)",
+}
 NOT_APPLICABLE = {}
